@@ -43,8 +43,13 @@ func (l *DList[T]) Unshift(value T) {
 	newNode := newDNode(value)
 	head := l.DoubleNode
 
+	// The copy of the old first node becomes the second node:
+	// re-link its neighbours to it.
+	head.prev = &l.DoubleNode
+	if head.next != nil {
+		head.next.prev = &head
+	}
 	newNode.next = &head
-	l.prev = newNode
 
 	// Move the pointer to the new node.
 	l.DoubleNode = *newNode
@@ -88,6 +93,12 @@ func (l *DList[T]) InsertBefore(node *DoubleNode[T], value T) error {
 	if newNode.prev != nil {
 		newNode.prev.next = newNode
 	} else {
+		// The copy of the old first node becomes the second node:
+		// re-link its neighbours to it.
+		head.prev = &l.DoubleNode
+		if head.next != nil {
+			head.next.prev = &head
+		}
 		newNode.next = &head
 		// Move the pointer to the new node.
 		l.DoubleNode = *newNode
@@ -158,6 +169,11 @@ func (l *DList[T]) Delete(node *DoubleNode[T]) error {
 	// Check if the node to be deleted is the head node.
 	if head.Value == node.Value {
 		l.DoubleNode = *head.next
+		// The second node has been copied into the head: re-link its neighbours to it.
+		l.prev = nil
+		if l.next != nil {
+			l.next.prev = &l.DoubleNode
+		}
 		return nil
 	}
 
@@ -191,6 +207,11 @@ func (l *DList[T]) Shift() *DoubleNode[T] {
 	} else {
 		head = head.next
 		l.DoubleNode = *head
+		// The second node has been copied into the head: re-link its neighbours to it.
+		l.prev = nil
+		if l.next != nil {
+			l.next.prev = &l.DoubleNode
+		}
 	}
 
 	return &node
